@@ -1,6 +1,6 @@
 CONSTANTS
   N = 4
-  Plain = 0
+  Plain = 2
   Near = 2
   Alike = 3
   Site <- SiteSpec
